@@ -387,6 +387,19 @@ def run_minc(case, R):
         if case.get('host_standin'):
             hostarg = t2grids.t2block(host.name, host.volume, host.rocktype, centre=host.centre)
             R.label('embed:host-given-as-stand-in')
+        if case.get('refused_first', len(vols_before) % 2 == 0):
+            # first an embed that is refused - the sub-grid has a block called like one of the host grid's: nothing happens
+            other_name = next(n for n in vols_before if n != host.name) if len(vols_before) > 1 else None
+            if other_name is not None:
+                R.label('embed:first-one-refused-for-a-shared-block-name')
+                clash = t2grids.t2grid(); clash.add_rocktype(t2grids.rocktype('sub  '))
+                cb = t2grids.t2block(other_name, 0.125, clash.rocktypelist[0], centre=[0., 0., 0.])
+                clash.add_block(cb)
+                with R.lib('embed-refused'):
+                    r0 = grid.embed(clash, t2grids.t2connection([hostarg, cb], 1, [0.3, 0.1], 1.0, 0.0))
+                R.check(r0 is None, 'embed:shared-name-not-refused', 'embed() of a sub-grid holding a block named %r (as the host grid does) returned %r' % (other_name, r0))
+                now = dict((b.name, float(b.volume)) for b in grid.blocklist)
+                R.check(now == vols_before, 'embed:refused-call-changed-volumes', lambda: 'after the refused embed: %r' % sorted((n, vols_before[n], now.get(n)) for n in vols_before if now.get(n) != vols_before[n])[:3])
         with R.lib('embed'):
             res = grid.embed(sub, t2grids.t2connection([hostarg, s1], 1, [0.3, 0.1], 1.0, 0.0))
         if R.check(res is not None, 'embed:refused', 'embed returned None although the host (%r) is larger than the sub-grid' % host.volume):
